@@ -130,9 +130,16 @@ def chkAll (cfg : Cfg) (w : Wiring) : Option Int → List (List SRound) → List
       | some hi2 => chkAll cfg w hi2 ls rest
   | _, _, _ => none
 
-/-- P05 -/
-def P05 (cfg : Cfg) (w : Wiring) (lifes : List (List SRound)) (hist : List (Option Int × List Obs)) : Bool :=
-  (chkAll cfg w none lifes hist).isSome
+/-- value of `GetStartBlock` without the `latest` flag: the relayer's starting point -/
+def gsb (w : Wiring) (stored : Option Int) : Int :=
+  if w.fresh then w.cfgStart
+  else if lastStored stored > w.cfgStart then lastStored stored else w.cfgStart
+
+/-- P05. The frontier starts at the relayer's starting point (stored / configured start block; everything below
+    it is not this relayer's business), so the FIRST lifetime, too, must start at or below it: a scan that begins
+    above its starting point has skipped blocks. With `latest` the frontier is anchored at the first start. -/
+def P05 (cfg : Cfg) (w : Wiring) (stored0 : Option Int) (lifes : List (List SRound)) (hist : List (Option Int × List Obs)) : Bool :=
+  (chkAll cfg w (if w.latest then none else some (gsb w stored0)) lifes hist).isSome
 
 /-- handler level: a failed fetch makes `HandleEvents` fail (so the loop retries the range) -/
 def handlerResult (fetchFailed : Bool) : String := if fetchFailed then "err" else "ok"
